@@ -421,8 +421,12 @@ def build_instance_tree(
                 for arg in elem_class_mod.arguments:
                     sub_class_modification.arguments.append(arg)
 
+        # Instantiate a copy: instantiation modifies the symbols of the class, and other
+        # local classes that extend this one still look up the class as it was declared.
         extended_orig_class.classes[class_name] = build_instance_tree(
-            c, sub_class_modification, extended_orig_class
+            c if isinstance(c, ast.InstanceClass) else c.copy_including_children(),
+            sub_class_modification,
+            extended_orig_class,
         )
 
     # Check that all symbol modifications to be applied on this class exist
